@@ -83,10 +83,11 @@ theorem Good_of_diags {T : PTables} {nroot : Nat} {st st' : PState} (hg : G T nr
 theorem BTok_special (hw : T.WFInv) (n p : Nat) (k : Str) (hk : k ∈ [['{'], ['}'], ['\\', ';']])
     (hp : p < n) : BTok T n (mkTok .special p k) := by
   obtain ⟨v, hv, hl⟩ := hw.special_small k hk
-  refine ⟨⟨hp, ?_, rfl, rfl⟩, rfl⟩
-  intro _
-  simp only [extent, mkTok, hv, Option.getD_some]
-  omega
+  refine ⟨⟨hp, ?_, rfl, ?_⟩, rfl⟩
+  · intro _
+    simp only [extent, mkTok, hv, Option.getD_some]
+    omega
+  · simp [mbOk, mkTok, hv]
 
 theorem BL_cons {T : PTables} {n : Nat} {t : Tok} {ts : List Tok} :
     BL T n (t :: ts) ↔ BTok T n t ∧ BL T n ts := by
@@ -147,12 +148,37 @@ theorem pmodify {f : PState → PState} {st : PState} : Post (M.modify f st) (fu
 
 theorem G0_congr {T : PTables} {nroot : Nat} {st st' : PState} (h : G0 T nroot st)
     (hf : st'.foreign = st.foreign) (he : st'.extracted = st.extracted) (hm : st'.macros = st.macros)
-    (hv : st'.envs = st.envs) (hgl : st'.glossary = st.glossary) : G0 T nroot st' := by
-  refine ⟨?_, ?_, ?_, ?_⟩
+    (hv : st'.envs = st.envs) (hgl : st'.glossary = st.glossary)
+    (hi : st'.itemStack = st.itemStack) (hl : st'.langStack = st.langStack) (hr : st'.rots = st.rots) :
+    G0 T nroot st' := by
+  refine ⟨?_, ?_, ?_, ?_, ?_, ?_, ?_⟩
   · rw [hf, he]; exact h.flows
   · rw [hm, hv]; exact h.macros
   · rw [hv]; exact h.envs
   · rw [hgl]; exact h.gloss
+  · rw [hi]; exact h.items
+  · rw [hl]; exact h.langs
+  · unfold rotOf; rw [hr]; exact h.rots
+
+/-! ### `getTextExpanded` on the empty list (no token to take the position of) -/
+
+theorem getTextExpanded_nil (T : PTables) (fuel : Nat) (st : PState) :
+    Post (getTextExpanded T fuel [] st) (fun txt s => txt = [] ∧ s = st) := by
+  cases fuel with
+  | zero => rw [getTextExpanded.eq_1]; exact Post_outOfFuel _ _
+  | succ fuel =>
+    rw [getTextExpanded.eq_2]
+    refine pbind (fun r s => r.1 = [] ∧ s = st) ?_ ?_
+    · cases fuel with
+      | zero => rw [expandSequence.eq_1]; exact Post_outOfFuel _ _
+      | succ fuel =>
+        rw [expandSequence.eq_2]
+        have : removeLines [] = some [] := by decide
+        rw [this]
+        exact ppure ⟨rfl, rfl⟩
+    · rintro r s ⟨hr, rfl⟩
+      refine ppure ⟨?_, rfl⟩
+      rw [hr]; rfl
 
 /-! ### `modifyParameters` / `initPackage` -/
 
@@ -209,7 +235,7 @@ theorem modParams_core (fuel : Nat) (IHwork : SpecWork T nroot fuel) :
   intro md options position st hg hm he
   rw [modifyParameters.eq_2]
   split
-  · exact Post_crash _ _ _
+  · exact Post_crash _ _ _ (by simp [allowedCrash])
   · refine pbind _ pget ?_
     rintro _ _ ⟨rfl, rfl⟩
     dsimp only
@@ -222,7 +248,7 @@ theorem modParams_core (fuel : Nat) (IHwork : SpecWork T nroot fuel) :
     refine pbind _ pmodify ?_
     intro _ s1 hs1
     have hgood1 : Good T nroot st s1 := by
-      refine ⟨⟨⟨?_, ?_, ?_, ?_⟩, ?_, ?_⟩, ?_, ?_⟩ <;> rw [hs1]
+      refine ⟨⟨⟨?_, ?_, ?_, ?_, ?_, ?_, ?_⟩, ?_, ?_⟩, ?_, ?_⟩ <;> rw [hs1]
       · exact hg.flows
       · intro m hmem
         rcases List.mem_append.1 hmem with h | h
@@ -237,6 +263,9 @@ theorem modParams_core (fuel : Nat) (IHwork : SpecWork T nroot fuel) :
         · exact hg.envs e h
         · exact he e h
       · exact hg.gloss
+      · exact hg.items
+      · exact hg.langs
+      · exact hg.rots
       · exact hg.root
       · exact hg.inFrame
     clear hs1
@@ -299,7 +328,7 @@ theorem init_core (P : ModuleDef → Prop) (fuel : Nat)
         intro _ s1 hs1
         refine hjp s1 ?_
         rw [hs1]
-        exact Good_trans hgood ⟨⟨G0_congr hgood.1.toG0 rfl rfl rfl rfl rfl, hgood.1.root, hgood.1.inFrame⟩, rfl, rfl⟩
+        exact Good_trans hgood ⟨⟨G0_congr hgood.1.toG0 rfl rfl rfl rfl rfl rfl rfl rfl, hgood.1.root, hgood.1.inFrame⟩, rfl, rfl⟩
       · exact hjp s hgood
 theorem findModule_mem {cls : Bool} {name : Str} {m : ModuleDef} (h : findModule T cls name = some m) :
     m ∈ T.packageModules ++ T.classModules := by
@@ -348,7 +377,8 @@ theorem work_step (hw : T.WFInv) (nroot fuel : Nat) (IH : AllSpecs T nroot fuel)
   have hl2 : s2.latex = latex := by rw [hs2]
   have hn2 : s2.nest = st.nest + 1 := by rw [hs2]
   have hG2 : G T nroot s2 := by
-    refine ⟨G0_congr hg (by rw [hs2]) (by rw [hs2]) (by rw [hs2]) (by rw [hs2]) (by rw [hs2]), ?_, ?_⟩
+    refine ⟨G0_congr hg (by rw [hs2]) (by rw [hs2]) (by rw [hs2]) (by rw [hs2]) (by rw [hs2])
+      (by rw [hs2]) (by rw [hs2]) (by rw [hs2]), ?_, ?_⟩
     · rw [hn2, hl2]; intro h; exact h0 (by omega)
     · rw [hn2]; omega
   clear hs2
@@ -377,7 +407,7 @@ theorem work_step (hw : T.WFInv) (nroot fuel : Nat) (IH : AllSpecs T nroot fuel)
     refine pbind _ pmodify ?_
     intro _ s5 hs5
     refine ppure ⟨?_, ⟨?_, ?_⟩, ?_⟩
-    · rw [hs5]; exact G0_congr g4.1.toG0 rfl rfl rfl rfl rfl
+    · rw [hs5]; exact G0_congr g4.1.toG0 rfl rfl rfl rfl rfl rfl rfl rfl
     · rw [hs5]
     · rw [hs5]; show s4.nest - 1 = st.nest; rw [g4.2.2, hgood3.2.2, hn2]; omega
     · have := ho rfl; rw [hl3] at this; exact this
@@ -510,10 +540,16 @@ theorem modDesc_step (hw : T.WFInv) (nroot fuel : Nat) (IH : AllSpecs T nroot fu
   intro toks st hg hb
   rw [modifyDescription.eq_2]
   cases hc : capFirst T toks with
-  | none => exact Post_crash _ _ _
+  | none => exact Post_crash _ _ _ (by simp [allowedCrash])
   | some ts =>
     dsimp only
     have hts := capFirst_BL T _ _ _ hb hc
+    by_cases hnil : ts = []
+    · -- `toks[-1]` is never evaluated: the expanded text of no tokens is empty
+      subst hnil
+      refine pbind _ (getTextExpanded_nil T fuel st) ?_
+      rintro txt s ⟨rfl, rfl⟩
+      exact ppure ⟨Good_refl hg, hts⟩
     refine pbind (fun _ s => Good T nroot st s) (IH.text ts st hg hts) ?_
     intro txt s h
     cases txt.getLast? with
@@ -523,7 +559,7 @@ theorem modDesc_step (hw : T.WFInv) (nroot fuel : Nat) (IH : AllSpecs T nroot fu
       split
       · exact ppure ⟨h, hts⟩
       · cases hl : ts.getLast? with
-        | none => exact Post_crash _ _ _
+        | none => exact absurd (List.getLast?_eq_none_iff.1 hl) hnil
         | some l =>
           refine ppure ⟨h, ?_⟩
           rw [BL_append]
